@@ -306,4 +306,27 @@ def observe_io(graph, sd):
         if sorted(exec_ks[: len(pre_ks)], key=str) != sorted(pre_ks, key=str) or exec_ks[len(pre_ks):] != init_ks:
             problems.append(f"params.json as instance: init tasks do not run after the pre-tasks, in their order (executed k = {exec_ks}, pre-tasks {pre_ks}, init tasks {init_ks})")
     case["inst_file"] = {"defs": len(defs2), "pre": len(want_pre), "init": len(want_init), "execs": len(execs)}
+
+    # --- identifier asked for, parameter changed, then sealed and written: the identifiers written are those of the final state
+    cands = [n for n in graph if graph[n]["cls"] in ("K", "K2", "PX", "QX", "OD") and not graph[n].get("dflt") and graph[n]["vals"]["a"][0] == "int"]
+    if cands:
+        try:
+            g2 = _copy.deepcopy(graph)
+            n = rng.choice(cands)
+            oa = R.build(g2, None)
+            for o in oa.values():
+                o.__xpm__.full_identifier
+            g2[n]["vals"]["a"] = ["int", 50 + rng.randrange(5)]
+            oa[n].a = g2[n]["vals"]["a"][1]
+            ob = R.build(g2, None)
+            R.seal(oa[root])
+            R.seal(ob[root])
+            da = {d["id"]: d["identifier"] for d in oa[root].__xpm__.__get_objects__([], SerializationContext())}
+            db = {d["id"]: d["identifier"] for d in ob[root].__xpm__.__get_objects__([], SerializationContext())}
+            for m in g2:
+                if id(oa[m]) in da and id(ob[m]) in db and da[id(oa[m])] != db[id(ob[m])]:
+                    problems.append(f"params.json: identifier of node {m} written after (identifier request, assignment, sealing) is not the identifier of the final state")
+                    break
+        except Exception as e:
+            problems.append(f"params.json: (identifier request, assignment, sealing, writing) raised {e!r}"[:300])
     return case, problems
